@@ -167,6 +167,7 @@ type Ctx struct {
 	globals       map[*ssa.Global]*Object
 	locks         map[string]*lockState
 	held          []heldLock
+	goDepth       int
 	nested        map[string]*Object
 	fnsSeen       map[string]int
 	concreteVec   []uint64
